@@ -174,6 +174,16 @@ CLAIMED = {
             'comes from generation. Internal VM faults are recognised by message; type errors caused by a script\'s own values and '
             'the use of a value-less call result are not internal faults.',
             'DESIGN.md section 6, C06'),
+    'C20': ('model_checking', 'manifests and request histories replayed into the real WebApp/FrontEnd (stub flask) over the real JobControl; TLC steps WebFront.tla alongside',
+            'WebFront.tla is the abstract front end: manifest lookup by exact path, queued/background start unless reported running, '
+            'stop / stop-current / stop-all targets, completions, and the page data = HTML-escaped manifest strings with the documented '
+            'defaults for path and title. Random manifests over hostile strings and request histories (listed/unlisted paths, stops, '
+            'status, capture, completions) are replayed into the real web_app.WebApp and front_end.FrontEnd with a stub flask module '
+            'and instrumented jobs on the real JobControl; every step\'s observation (file handed to ScriptJob.from_file, queued or '
+            'background, jobs asked to stop, queue length, exception) and the final script list are validated by TLC.',
+            'Flask/Jinja are not installed: template contexts are checked, pages are not rendered. That the stop pages render is not '
+            'demanded (they need manifest entries of those paths).',
+            'DESIGN.md section 6, C20'),
 }
 
 REASONS_PENDING = 'check not built yet in this round (planned in DESIGN.md section 6); no claim is made'
